@@ -280,6 +280,19 @@ def o84(ctx):
             ctx.finding(q, "write-set", f"{q.split('.')[-1]} may only renumber {sorted(extra_written)}; it writes {sorted(res.written)}", fn, m)
         if m1.attrs["df"].written or m2_.attrs["df"].written:
             ctx.finding(q, "inputs", "the input lists must not be modified (work on copies)", fn, m)
+        # every other field of a merged row is the field of the input row it came from, value for value
+        for c_ in sorted(cols20(ctx.prog) - extra_written):
+            t_ = res.cols.get(c_)
+            ctx.count(1)
+            if t_ is None:
+                continue
+            casts = [n for n in tm.walk(t_) if (n.op == "call" and n.args[0] in ("cast", ".astype")) or n.op in ("narrow", "int", "round")]
+            casts += [const(str(n_[1])) for n_ in res.notes if n_[0] == "astype" and str(n_[1]).strip("'").split(".")[-1] not in ("float", "float64", "double", "longdouble")]
+            if casts:
+                ctx.finding(q, f"field {c_} of the merged table", f"{q.split('.')[-1]}: the merged table passes through a type conversion "
+                            f"({tm.show(casts[0])[:80]}): single precision keeps 24 bits, so positions, angles and scores change in their last "
+                            "digits and identifiers above 2**24 collapse onto each other", fn, m)
+                break
         oid = res.cols["object_id"]
         if oid.op != "concat":
             raise Unsupported("merged object_id is not the concatenation of the two inputs", fn)
@@ -422,4 +435,4 @@ def _obligations():
 
 
 def obligations():
-    return _obligations() + [constructors_obligation(['cryomotl.Motl']), labels_obligation("C08"), selectors_obligation("C08"), effects_obligation("C08"), plumbing_obligation("C08"), overrides_obligation("C08"), options_obligation("C08")]
+    return _obligations() + [constructors_obligation(['cryomotl.Motl', 'cryomotl.EmMotl']), labels_obligation("C08"), selectors_obligation("C08"), effects_obligation("C08"), plumbing_obligation("C08"), overrides_obligation("C08"), options_obligation("C08")]
